@@ -418,3 +418,12 @@ def run(ctx):
     diagram_props(ctx, ctx.n(40, 2500))
     murphy_cases(ctx, ctx.n(220, 12000))
     thetas_cases(ctx, ctx.n(200, 10000))
+
+
+def replay(ctx, rec):
+    """./check C11 --replay <file>: the check is deterministic in (seed, tier); the recorded failing input is reproduced by re-running
+    it with the recorded seed and tier (kernel grid, probes and predicates do not depend on the seed at all)."""
+    import random
+    ctx.rng = random.Random(rec.get("seed", ctx.seed))
+    ctx.tier = rec.get("tier", ctx.tier)
+    run(ctx)
